@@ -90,7 +90,7 @@ CLAIMED['C11'] = dict(
          'and user disconnect at arbitrary points, pre-empting the real SecopClient/AsynTcp threads at lock '
          'operations and line events of client/__init__.py. Checked per caller: own reply or error, no duplicate '
          'delivery, wait bounded, no reconnect by the client after a shutdown by the user, no request left untransmitted once every request with the same key was answered, '
-         'release on loss with a connection error; disconnect() returns without raising, '
+         'release with a connection error on loss and on a shutdown by the user; disconnect() returns without raising, '
          'no worker thread left.',
     note='Trusted: simulation kernel, simulated TCP, scripted peer. Replies sent after the owner gave up and unknown '
          'actions mixed with unsolicited replies are exempt (SECoP has no request ids), also down a chain of '
@@ -157,7 +157,8 @@ CLAIMED['C19'] = dict(
     text='Seeded search over equipment ids / descriptions (ASCII, JSON escapes, multi-byte, lengths around the 508 byte '
          'budget), interface lists and datagram sequences from several peers (valid requests, other JSON values, invalid '
          'UTF-8, empty, oversized) with loss, duplication, reordering and truncation, against the real UDPListener '
-         'running in its own task on a simulated datagram socket. Every datagram sent must be a UTF-8 JSON object <= 508 '
+         'running in its own task on a simulated datagram socket (part of the cases with an identity of exactly the '
+         'budget +- 2 bytes). Every datagram sent must be a UTF-8 JSON object <= 508 '
          'bytes with the identity, a configured tcp port and a character-boundary prefix of the description; disabled '
          'only if the identity alone does not fit; answers iff discovery request; alive after every datagram. In part '
          'of the runs the responder is started by the real Server.run: the TCP interfaces are bound on the '
@@ -176,7 +177,7 @@ CLAIMED['C20'] = dict(
          'of all levels carrying unique tokens - each connection must receive a record exactly when its level for that '
          'module admits it (records emitted inside a request window are DONTCARE), nothing after off/IDN/close, no '
          'cross-talk, a log call never raises; (rotation) the real LogfileHandler over a scratch directory with dated, '
-         'foreign and sub-directory entries, retention 0..5, clock jumps over 0..4 midnights and injected os.remove '
+         'foreign and sub-directory entries and symbolic links named like files of the handler, retention 0..5, clock jumps over 0..4 midnights and injected os.remove '
          'failures - after every rollover the file being written and the N-1 newest earlier files exist, only older '
          'own files are removed.',
     note='Trusted: simulation kernel, simulated TCP, virtual clock, sim.fs for os.scandir/os.remove of frappy.logging. '
@@ -205,7 +206,7 @@ CLAIMED['C15'] = dict(
          'typed, optional/empty, not configured), first-use phase per attachment (earlyInit, initModule, startModule, poll, '
          'shutdown, never), shuffled declaration order, Pinata with dynamic modules (first, in the middle or last; a '
          'configured module may be attached to a scanned one), shared communicator through uri, '
-         'configured writes, failing early/late initialisation, slow or hanging first polls, shutdown during a read '
+         'configured writes (one of them may fail once with a communication error), failing early/late initialisation, slow or hanging first polls, shutdown during a read '
          '(shorter and longer than the grace time), optionally a restart (shutdown, then the same configuration '
          'started again in the same process, judged like the first generation) - '
          'running the real Server._processCfg, start events, poll threads and SecNode.shutdown_modules. Event log rules: '
@@ -224,7 +225,7 @@ CLAIMED['C10'] = dict(
          'poll of that module; start values, overridden limits/unit/visibility/readonly/group must show in cache and '
          'description and limits must be used by later range checks (wire probes); with 0..3 injected errors (unknown '
          'name, unknown parameter property, wrong type, missing mandatory property, required value missing, inverted '
-         'limits, bad module property, an optional parameter of a base class which the class of the module does not '
+         'limits, bad module property; two modules of one class each with its own configuration; an optional parameter of a base class which the class of the module does not '
          'implement) start-up must end with the error report naming every failing module and no '
          'configured value may have reached any driver. In a quarter of the runs the node is restarted on the same '
          'loaded configuration (as Server.run does after Server.restart) and the second generation is judged.',
@@ -245,7 +246,7 @@ CLAIMED['C18'] = dict(
          'cached float value belongs to the cached index and a float write selects the closest allowed value; no value '
          'outside the limits in force reaches the driver and an inverted limits pair is refused; at most one controller '
          'is active, the output names exactly it, a take-over switches the previous one off, operations on one output '
-         'leave the other output alone; two clients handing the control to two controllers at the same instant (slow '
+         'leave the other output alone, a hand-over whose switch-off hook fails leaves the previous state; two clients handing the control to two controllers at the same instant (slow '
          'switching hook) leave exactly one of them in control.',
     note='Trusted: simulation kernel, generated classes with hardware registers. Operations of client and driver are '
          'issued one after the other (the invariants are quiescent-point invariants); the poll thread runs concurrently; '
